@@ -59,7 +59,12 @@ class Generated:
         out = []
         for p in self.owner_props.get(owner, []) or []:
             if not p.endswith('!'): out.append(p)
-            elif failure is None or failure.kind in self.SAFETY or (failure.kind == 'precondition' and 'library specification' in (failure.clause_text or '')): out.append(p[:-1])
+            elif failure is None or failure.kind in self.SAFETY: out.append(p[:-1])
+            elif failure.kind == 'precondition':
+                # the precondition of a library function (vstd) or of a trusted std specification of the prelude (slicing, unwrap, indexing): safety.
+                # the precondition of a repository function's own contract is part of the functional argument.
+                co = getattr(failure, 'clause_owner', 'unknown')
+                if 'library specification' in (failure.clause_text or '') or not (failure.clause_text or '').strip() or co is None or str(co).startswith('ghost:'): out.append(p[:-1])
         return out
     def relying_props(self, key):
         """properties of `key` and of every function of the unit whose text calls something of that name (over-approximate, by last
